@@ -150,24 +150,31 @@ def eval_shard(path, work):
 
 
 def eval_cases(pid, work):
-    shards = sorted(glob.glob(os.path.join(work, f"cases_{pid}_*.v")))
-    cases = []
-    jf = os.path.join(work, f"cases_{pid}.jsonl")
-    if os.path.exists(jf):
-        with open(jf) as fh:
-            cases = [json.loads(l) for l in fh if l.strip()]
-    bad = []
-    errs = []
+    """Evaluate every collector of this property (cases_<pid>[suffix].jsonl + shards)."""
+    cases, bad, errs, stats = [], [], [], {}
+    subs = sorted(os.path.basename(f)[len("cases_"):-len(".jsonl")] for f in glob.glob(os.path.join(work, f"cases_{pid}*.jsonl")))
+    jobs = []
+    for sub in subs:
+        with open(os.path.join(work, f"cases_{sub}.jsonl")) as fh:
+            sub_cases = [json.loads(l) for l in fh if l.strip()]
+        off = len(cases)
+        cases += sub_cases
+        for sh in sorted(glob.glob(os.path.join(work, f"cases_{sub}_[0-9]*.v"))):
+            jobs.append((sh, off))
+        sf = os.path.join(work, f"stats_{sub}.json")
+        if os.path.exists(sf):
+            st = json.load(open(sf))
+            for k in ("kinds", "tags"):
+                d = stats.setdefault(k, {})
+                for kk, vv in st.get(k, {}).items():
+                    d[kk] = d.get(kk, 0) + vv
+            stats.setdefault("extra", {}).update(st.get("extra", {}))
     with ThreadPoolExecutor(max_workers=8) as ex:
-        for sh, (res, out) in zip(shards, ex.map(lambda s: eval_shard(s, work), shards)):
+        for (sh, off), (res, out) in zip(jobs, ex.map(lambda j: eval_shard(j[0], work), jobs)):
             if res is None:
                 errs.append((sh, out[-3000:]))
             else:
-                bad += res
-    stats = {}
-    sf = os.path.join(work, f"stats_{pid}.json")
-    if os.path.exists(sf):
-        stats = json.load(open(sf))
+                bad += [(i + off, a, h) for i, a, h in res]
     return cases, sorted(bad), errs, stats
 
 
